@@ -29,32 +29,39 @@ theorem descL_eq : ∀ ds : DList, descL ds = ds.length + descS ds
   | .nil => rfl
   | .cons d r => by simp only [descL, descS, DList.length, descL_eq r]; omega
 
+/-- the layout only looks at `info`, `a`, `b` -/
+def SameShape (x y : PNode) : Prop := x.info = y.info ∧ x.a = y.a ∧ x.b = y.b
+
 mutual
-theorem LayN_congr (T T' : Array PNode) : ∀ (d : DNode) (idx base : Nat),
-    (∀ j, j = idx ∨ (base ≤ j ∧ j < base + descT d) → T'[j]! = T[j]!) → LayN T d idx base → LayN T' d idx base
+theorem LayN_congr' (T T' : Array PNode) : ∀ (d : DNode) (idx base : Nat),
+    (∀ j, j = idx ∨ (base ≤ j ∧ j < base + descT d) → SameShape T'[j]! T[j]!) → LayN T d idx base → LayN T' d idx base
   | .ival i, idx, base, h, hl => by
     simp only [LayN] at hl ⊢
-    rw [h idx (Or.inl rfl)]; exact hl
+    rw [(h idx (Or.inl rfl)).1]; exact hl
   | .create i ch, idx, base, h, hl => by
     simp only [LayN, descT] at hl h ⊢
-    rw [h idx (Or.inl rfl)]
+    rw [(h idx (Or.inl rfl)).1, (h idx (Or.inl rfl)).2.1]
     refine ⟨hl.1, hl.2.1, hl.2.2.1, ?_⟩
-    exact LayN_congr T T' ch base (base + 1) (fun j hj => h j (by omega)) hl.2.2.2
+    exact LayN_congr' T T' ch base (base + 1) (fun j hj => h j (by omega)) hl.2.2.2
   | .group i ds, idx, base, h, hl => by
     simp only [LayN, descT] at hl h ⊢
-    rw [h idx (Or.inl rfl)]
+    rw [(h idx (Or.inl rfl)).1, (h idx (Or.inl rfl)).2.1, (h idx (Or.inl rfl)).2.2]
     refine ⟨hl.1, hl.2.1, hl.2.2.1, hl.2.2.2.1, ?_⟩
     have := descL_eq ds
-    exact LayL_congr T T' ds base (base + ds.length) (fun j hj => h j (by omega)) hl.2.2.2.2
-theorem LayL_congr (T T' : Array PNode) : ∀ (ds : DList) (k base : Nat),
-    (∀ j, (k ≤ j ∧ j < k + ds.length) ∨ (base ≤ j ∧ j < base + descS ds) → T'[j]! = T[j]!) →
+    exact LayL_congr' T T' ds base (base + ds.length) (fun j hj => h j (by omega)) hl.2.2.2.2
+theorem LayL_congr' (T T' : Array PNode) : ∀ (ds : DList) (k base : Nat),
+    (∀ j, (k ≤ j ∧ j < k + ds.length) ∨ (base ≤ j ∧ j < base + descS ds) → SameShape T'[j]! T[j]!) →
     LayL T ds k base → LayL T' ds k base
   | .nil, _, _, _, _ => trivial
   | .cons d r, k, base, h, hl => by
     simp only [LayL, descS, DList.length] at hl h ⊢
-    exact ⟨LayN_congr T T' d k base (fun j hj => h j (by omega)) hl.1,
-      LayL_congr T T' r (k + 1) (base + descT d) (fun j hj => h j (by omega)) hl.2⟩
+    exact ⟨LayN_congr' T T' d k base (fun j hj => h j (by omega)) hl.1,
+      LayL_congr' T T' r (k + 1) (base + descT d) (fun j hj => h j (by omega)) hl.2⟩
 end
+
+theorem LayN_congr (T T' : Array PNode) (d : DNode) (idx base : Nat)
+    (h : ∀ j, j = idx ∨ (base ≤ j ∧ j < base + descT d) → T'[j]! = T[j]!) (hl : LayN T d idx base) : LayN T' d idx base :=
+  LayN_congr' T T' d idx base (fun j hj => by rw [h j hj]; exact ⟨rfl, rfl, rfl⟩) hl
 
 /-- the slots `k, k+1, …` hold copies of the members of `ds` -/
 def KindsAt (T : Array PNode) : DList → Nat → Prop
